@@ -147,6 +147,7 @@ struct bed : central_listener
     bool                        enc_check_callbacks = false;
     bool                        remote_reason_22 = false;
     unsigned                    enc_req_event = 0;
+    bool                        first_instant_heard = false;
     bool                        instant_pending = false;    // set by the driver: a PDU with an instant is on its way or waiting
 
     // procedure response timeout bookkeeping (C27)
@@ -322,6 +323,8 @@ struct bed : central_listener
         resp.reset_connection();
         event_pdus_this_event = 0;
         version_event_counted = false;
+        first_instant_heard = false;
+        instant_pending = false;
         remote_reason_22 = false;
         last_closed_reason_valid = false;
         att_rx.clear();
@@ -337,6 +340,18 @@ struct bed : central_listener
 
         const bytes& p = it.payload;
         const unsigned kl = known_length( p[ 0 ] );
+
+        // anything that reaches the link layer while a PDU with an instant waits can overwrite that PDU (the link layer
+        // keeps a pointer into the freed receive buffer: C21); what happens to such a connection is marked in the keys
+        if ( instant_pending )
+        {
+            const bool has_instant = kl == p.size() && ( p[ 0 ] == LL_CONNECTION_UPDATE_IND || p[ 0 ] == LL_CHANNEL_MAP_IND || ( p[ 0 ] == LL_PHY_UPDATE_IND && info.phy2m ) );
+
+            if ( first_instant_heard )
+                life.pending_instant_traffic = true;
+            else if ( has_instant )
+                first_instant_heard = true;
+        }
 
         // the encryption automaton follows what reached the link layer
         if ( info.security && keys() )
@@ -368,6 +383,14 @@ struct bed : central_listener
             ++event_pdus_this_event;
             if ( p[ 0 ] == LL_VERSION_IND ) version_event_counted = true;
         }
+    }
+
+    // a PDU with an instant waits in the link layer and something (even the retransmission of that very PDU) is written
+    // into the receive buffer: the waiting PDU can be overwritten (C21), mark what happens to this connection
+    void on_stored( const tx_item& it ) override
+    {
+        if ( instant_pending && first_instant_heard && !it.payload.empty() )
+            life.pending_instant_traffic = true;
     }
 
     void on_accepted( const tx_item& it, unsigned, std::uint64_t t ) override
@@ -476,7 +499,7 @@ struct bed : central_listener
             if ( !proc.running )
                 verif::violation( "C27", "C27:timeout:close_without_procedure", "connection closed with LL Response Timeout (0x22) but the peripheral had no procedure of its own running | " + witness(), step );
             else if ( proc.answered )
-                verif::violation( "C27", "C27:timeout:closed_although_answered:" + proc.name, "connection closed with 0x22 although the " + proc.name + " procedure was answered by opcode " + proc.answer + " | " + witness(), step );
+                verif::violation( "C27", "C27:timeout:closed_although_answered:" + proc.name + ( life.pending_instant_traffic ? ":pending_instant_traffic" : "" ), "connection closed with 0x22 although the " + proc.name + " procedure was answered by opcode " + proc.answer + " | " + witness(), step );
             else
             {
                 const std::uint64_t dt = now - proc.t_tx;
